@@ -22,10 +22,10 @@ const (
 )
 
 type parked struct {
-	task  int
-	kind  string
-	key   string
-	wake  chan Decision
+	task int
+	kind string
+	key  string
+	wake chan Decision
 }
 
 // Sched runs tasks under a schedule.
